@@ -171,10 +171,11 @@ def main(tier):
     check.samples = [r['sample'] for r in results[:6] if r['sample']]
     check.assumptions += ['component timelines abstract: duration() = d_k (finite >= 0 or +inf); strictly past d_k a component rests at its terminal value (timeline-level fact: C02); Duration::as_secs_f32 is monotone and finite (ASSUMED, L-dur: composition of monotone IEEE operations; the direct solver query does not finish)',
                           'at t >= duration() the position can still be short of terminal by the resolution of f32 time (ulp(t)/cycle): recorded known finding; enforced on the real TimeScale code: time since delay >= cycle*(repeats+1) - 2 ulp(duration())']
-    nobl = nob + len(check.obligations); ndisl = ndis + sum(1 for o in check.obligations if o.result.status == 'unsat')
+    claimed = [o for o in check.obligations if not (o.finding_key and check.is_known(o.finding_key))]
+    nobl = nob + len(claimed); ndisl = ndis + sum(1 for o in claimed if o.result.status == 'unsat')
     check.info.update(configurations=len(cfgs), histories=sum(r['histories'] for r in results))
     return check.finish(rule='animator level: one obligation per (configuration, prefix, infinite-component choice, path) covering exactly-when / never-infinite / stays-true / values-rest; kernel level: 2 obligations on the real TimeScale MIR',
-                        extra_cov={'obligations': nobl, 'discharged': ndisl, 'sat_counterexamples': len(sats) + sum(1 for o in check.obligations if o.result.status == 'sat'),
+                        extra_cov={'obligations': nobl, 'discharged': ndisl, 'sat_counterexamples': len(sats) + sum(1 for o in claimed if o.result.status == 'sat'),
                                    'evaluations': max(1, nobl), 'distinct_nontrivial': max(2, nobl)})
 
 
